@@ -867,9 +867,41 @@ def _tt_svd_one(doc, args, inst):
 
 
 
+def _shared_list_history(inst):
+    """history half of the data-structure invariant: the caller's shape / rmax lists are neither kept nor written by the object.
+    Two objects are built from the same lists; one of them is then modified in place (set_core with another mode size)."""
+    N = [clampi(n, 1, 4) for n in inst['N']]
+    g = tn.Generator().manual_seed(3)
+    A = tn.randn(N, dtype=tn.float64, generator=g)
+    shape = list(N)
+    rmax = inst.get('rmax')
+    rm = [1] + [clampi(r, 1, 50) for r in rmax[1:-1]] + [1] if isinstance(rmax, list) else None
+    shape0, rm0 = list(shape), list(rm) if rm else None
+    kw = {'rmax': rm} if rm else {}
+    x = TT(A.reshape(-1), shape, eps=1e-12, **kw)
+    y = TT(A.reshape(-1), shape, eps=1e-12, **kw)
+    if shape != shape0 or (rm and rm != rm0):
+        return ['TT(dense, shape=lst, rmax=lst2) modified a caller list: %s %s' % (shape, rm)]
+    k = len(N) - 1
+    c = x.cores[k]
+    x.set_core(k, tn.randn(c.shape[0], c.shape[1] + 1, c.shape[2], dtype=tn.float64, generator=g))
+    msgs = []
+    if shape != shape0:
+        msgs.append("x = TT(dense, shape=lst); x.set_core(%d, core with mode size %d) changed the caller's list lst to %s" % (k, c.shape[1] + 1, shape))
+    we = wf_errors(y)
+    if we or list(y.N) != N:
+        msgs.append('x = TT(A, shape=lst); y = TT(A, shape=lst); x.set_core(...) made the unrelated object y ill-formed: y.N = %s, cores have mode sizes %s' % (list(y.N), [int(c_.shape[1]) for c_ in y.cores]))
+    return msgs
+
+
 def drv_tt_svd(doc, args, inst):
     """replays the model's structure, then (engineered family around the model) every placement of its singleton modes"""
     import itertools
+    if 'own_lists' in doc.get('obligation', '') and inst.get('shape_arg') and not inst.get('M'):
+        try:
+            return _shared_list_history(inst)
+        except Exception as e:
+            return ['history replay raises %s: %s' % (type(e).__name__, str(e)[:200])]
     msgs = _tt_svd_one(doc, args, inst)
     if msgs or inst.get('M'):
         return msgs
@@ -1166,3 +1198,157 @@ def drv_bounded(doc, args, inst):
 
 import json  # noqa: E402
 DRIVERS.update({'reshape': drv_reshape, 'permute': drv_permute, 'qtt': drv_qtt, 'rmode': drv_bounded, 'bounded': drv_bounded})
+
+
+# ------------------------------------------------------------------------------------------------
+# C14: index contracts of the cross approximation
+# ------------------------------------------------------------------------------------------------
+def _sizes(v, lo=1, hi=7):
+    return [clampi(x, lo, hi) for x in v]
+
+
+def _size_family(N):
+    """the model's sizes first, then a few neighbours (reversed, one size bumped)"""
+    fam = [list(N), list(reversed(N))]
+    for k in range(len(N)):
+        fam.append([n + (2 if j == k else 0) for j, n in enumerate(N)])
+    out = []
+    for f in fam:
+        if f not in out:
+            out.append(f)
+    return out
+
+
+def drv_maxvol(doc, args, inst):
+    from torchtt.interpolate import _maxvol
+    m, n = clampi(inst.get('m', 3), 1, 9), clampi(inst.get('n', 2), 1, 9)
+    msgs = []
+    for seed in range(12):
+        g = tn.Generator().manual_seed(seed)
+        M = tn.randn((m, n), dtype=tn.float64, generator=g)
+        if seed % 3 == 1 and m > n:
+            M[:n, :] *= 1e-3          # bad initial pivots: the improvement loop has to swap rows
+        if seed % 3 == 2 and m > n:
+            M[n:, :] *= 1e3
+        M0 = M.clone()
+        try:
+            idx = _maxvol(M)
+        except Exception as e:
+            return ['_maxvol raises %s: %s for a %dx%d matrix (seed %d)' % (type(e).__name__, str(e)[:120], m, n, seed)]
+        if not (tn.is_tensor(idx) and idx.dtype == tn.int64 and idx.ndim == 1 and idx.shape[0] == min(m, n)):
+            msgs.append('_maxvol(%dx%d) returns %s' % (m, n, (getattr(idx, 'dtype', None), tuple(getattr(idx, 'shape', ())))))
+        elif idx.numel() and (int(idx.min()) < 0 or int(idx.max()) >= m):
+            msgs.append('_maxvol(%dx%d) returns row numbers %s outside [0,%d)' % (m, n, idx.tolist(), m))
+        if not tn.equal(M, M0):
+            msgs.append('_maxvol modified its argument')
+        if msgs:
+            return msgs
+    return msgs
+
+
+def _checking_index_function(N, log):
+    d = len(N)
+
+    def f(I):
+        ok = tn.is_tensor(I) and I.dtype == tn.int64 and I.ndim == 2 and I.shape[1] == d
+        if not ok:
+            log.append('user function called with %s (expected an int64 matrix with %d columns)' % ((getattr(I, 'dtype', None), tuple(getattr(I, 'shape', ()))), d))
+            return tn.zeros(I.shape[0], dtype=tn.float64)
+        for k in range(d):
+            if I.shape[0] and (int(I[:, k].min()) < 0 or int(I[:, k].max()) >= N[k]):
+                log.append('column %d of the index matrix has values in [%d,%d], outside [0,%d) (N=%s)' % (k, int(I[:, k].min()), int(I[:, k].max()), N[k], N))
+        J = tn.stack([tn.clamp(I[:, k], 0, N[k] - 1) for k in range(d)], 1)
+        return 1.0 / (2.0 + tn.sum(J, 1).to(tn.float64))
+    return f
+
+
+def drv_cross_index(doc, args, inst):
+    import torchtt.interpolate as ti
+    N0 = _sizes(inst.get('N', [3, 4]))
+    nswp = int(args.get('nswp', inst.get('nswp', 2)) or 2)
+    kick = clampi(inst.get('kick', 2), 1, 3)
+    for N in _size_family(N0):
+        for seed in range(3):
+            tn.manual_seed(seed)
+            log = []
+            x0 = None
+            if isinstance(inst.get('x0'), dict):
+                spec = dict(inst['x0']); spec['N'] = N
+                x0 = mk_tt(spec, seed)
+                s0 = snapshot(x0)
+            try:
+                r = ti.dmrg_cross(_checking_index_function(N, log), N, eps=1e-6, nswp=max(nswp, 2), x_start=x0, kick=kick)
+            except Exception as e:
+                return ['dmrg_cross raises %s: %s for N=%s kick=%d seed=%d' % (type(e).__name__, str(e)[:120], N, kick, seed)]
+            if log:
+                return ['dmrg_cross(N=%s, kick=%d, seed=%d): %s' % (N, kick, seed, log[0])]
+            we = wf_errors(r)
+            if we or list(r.N) != list(N):
+                return ['dmrg_cross(N=%s): result not a well formed TT of shape N: %s %s' % (N, we, list(r.N))]
+            if x0 is not None and not unchanged(x0, s0):
+                return ['dmrg_cross modified the starting tensor']
+    return []
+
+
+def drv_fi_values(doc, args, inst):
+    import torchtt.interpolate as ti
+    names = sorted(k for k in inst if k.startswith('x') and k[1:].isdigit())
+    if not names:
+        return []
+    N0 = _sizes(inst[names[0]]['N'])
+    multi = len(names) > 1 or bool(args.get('multi'))
+    nswp = int(inst.get('nswp', 2) or 2)
+    kick = clampi(inst.get('kick', 2), 1, 3)
+    for N in _size_family(N0):
+        for seed in range(3):
+            tn.manual_seed(seed)
+            xs = []
+            for j, nm in enumerate(names):
+                spec = dict(inst[nm]); spec['N'] = N
+                xs.append(mk_tt(spec, seed + 10 * j))
+            fulls = [tn.sort(x.full().flatten())[0] for x in xs]
+            snaps = [snapshot(x) for x in xs]
+            log = []
+
+            def member(vals, j):
+                ref = fulls[j]
+                pos = tn.clamp(tn.searchsorted(ref, vals.contiguous()), 0, ref.numel() - 1)
+                near = tn.minimum(tn.abs(ref[pos] - vals), tn.abs(ref[tn.clamp(pos - 1, 0, ref.numel() - 1)] - vals))
+                scale = float(tn.abs(ref).max()) + 1e-300
+                bad = near > 1e-9 * scale
+                if bool(bad.any()):
+                    log.append('%d of %d values handed to the user function are not entries of argument tensor %d (e.g. %r)' % (int(bad.sum()), vals.numel(), j, float(vals[bad][0])))
+
+            def f(v):
+                if multi:
+                    if not (tn.is_tensor(v) and v.ndim == 2 and v.shape[1] == len(xs)):
+                        log.append('user function called with shape %s (expected M x %d)' % (tuple(getattr(v, 'shape', ())), len(xs)))
+                        return tn.zeros(v.shape[0], dtype=tn.float64)
+                    for j in range(len(xs)):
+                        member(v[:, j].to(tn.float64), j)
+                    return 1.0 / (2.0 + tn.sum(v, 1) ** 2)
+                if not (tn.is_tensor(v) and v.ndim == 1):
+                    log.append('user function called with shape %s (expected a vector)' % (tuple(getattr(v, 'shape', ())),))
+                    return tn.zeros(v.numel(), dtype=tn.float64)
+                member(v.to(tn.float64), 0)
+                return 1.0 / (2.0 + v ** 2)
+            st = None
+            if isinstance(inst.get('x_start'), dict):
+                spec = dict(inst['x_start']); spec['N'] = N
+                st = mk_tt(spec, seed + 77)
+            try:
+                r = ti.function_interpolate(f, xs if multi else xs[0], eps=1e-6, start_tens=st, nswp=max(nswp, 2), kick=kick)
+            except Exception as e:
+                return ['function_interpolate raises %s: %s for N=%s ranks=%s seed=%d' % (type(e).__name__, str(e)[:120], N, [list(x.R) for x in xs], seed)]
+            if log:
+                return ['function_interpolate(N=%s, ranks=%s, seed=%d): %s' % (N, [list(x.R) for x in xs], seed, log[0])]
+            we = wf_errors(r)
+            if we or list(r.N) != list(N):
+                return ['function_interpolate(N=%s): result not a well formed TT of shape N: %s %s' % (N, we, list(r.N))]
+            for x, s in zip(xs, snaps):
+                if not unchanged(x, s):
+                    return ['function_interpolate modified an argument tensor']
+    return []
+
+
+DRIVERS.update({'maxvol': drv_maxvol, 'cross_index': drv_cross_index, 'fi_values': drv_fi_values})
